@@ -41,3 +41,20 @@ def returns(paths):
 
 def raises(paths):
     return [p for p in paths if p.kind == "raise"]
+
+
+def unold(node_or_text):
+    """drop the old_(..) wrappers path summaries put around values computed before a later mutation"""
+    import copy
+    if isinstance(node_or_text, str):
+        node = ast.parse(node_or_text, mode="eval").body
+    else:
+        node = copy.deepcopy(node_or_text)
+
+    class U(ast.NodeTransformer):
+        def visit_Call(self, n):
+            self.generic_visit(n)
+            if isinstance(n.func, ast.Name) and n.func.id == "old_" and len(n.args) == 1:
+                return n.args[0]
+            return n
+    return u(U().visit(node))
